@@ -71,6 +71,14 @@ check("C12", "controller", CTL_TECH + "; failure points injected by the harness 
       "and RunningOK (running HAProxy == files).",
       CTL_NOTE + " File write faults are injected by replacing the target by a directory (needs root).", "DESIGN.md 6 C12")
 
+check("C04", "maps",
+      "TLA+ spec Maps.tla: HAProxy's map_str/map_dir/map_beg lookup over character sequences + the documented precedence as oracle; TLC enumerates "
+      "all rule sets, the real HostsMaps/WriteFrontendMaps emits the match files, TLC judges every request of a closed path alphabet (TraceMaps.tla)",
+      "Enumerated-input contract validation: every rule set of <=2 (thorough <=3, exhaustive) rules over 2 hosts x 6 paths x 3 path types x 6 path-type "
+      "orders is run through the real map builder; PathPrecedence and NoCrossHost are evaluated by TLC on 22 requests per case.",
+      "Trusted: TLC; HAProxy's lookup semantics as transcribed in Maps.tla (no HAProxy binary); regex paths and header filters are not in the alphabet.",
+      "DESIGN.md 6 C04")
+
 NOT_BUILT = "check not built yet (planned, DESIGN.md section 6); no claim made until the check exists"
 
 
